@@ -15,6 +15,7 @@ import (
 	"seehuhn.de/go/sfnt/glyph"
 	"seehuhn.de/go/sfnt/opentype/classdef"
 	"seehuhn.de/go/sfnt/opentype/coverage"
+	"seehuhn.de/go/sfnt/opentype/gdef"
 	"seehuhn.de/go/sfnt/opentype/gtab"
 	"seehuhn.de/go/sfnt/parser"
 )
@@ -429,7 +430,9 @@ func areaOtl(c *Ctx) {
 	nCd := c.N * 20 / 100
 	nGsub := c.N * 15 / 100
 	nGpos := c.N * 15 / 100
-	nLL := c.N - nCov - nCd - nGsub - nGpos
+	nFL := c.N * 5 / 100
+	nGdef := c.N * 6 / 100
+	nLL := c.N - nCov - nCd - nGsub - nGpos - nFL - nGdef
 
 	// ---- coverage
 	special := [][]otlRun{
@@ -593,7 +596,27 @@ func areaOtl(c *Ctx) {
 		otlGenGpos(c, i)
 	}
 
+	// ---- GDEF
+	for i := 0; i < nGdef; i++ {
+		otlGenGdef(c, i)
+	}
+
+	// ---- feature lists
+	for i := 0; i < nFL; i++ {
+		otlGenFL(c, i)
+	}
+
 	// ---- lookup lists
+	nLargeRead := 0
+	for i := 0; i < nLL/4; i++ {
+		ext := Pick(r, []int{7, 9})
+		b := otlSynthLL(r, ext)
+		o := c.Case(Verdict, "otl.ll.read", fmt.Sprintf("ext=%d data=%s", ext, hx(b)), true)
+		c.Stat("ll.read-outcome", "synthetic:"+outcomeClass(o))
+		m, _ := otlMutate(r, b)
+		o = c.Case(Verdict, "otl.ll.read", fmt.Sprintf("ext=%d data=%s", ext, hx(m)), true)
+		c.Stat("ll.read-outcome", "synthetic-mutated:"+outcomeClass(o))
+	}
 	for i := 0; i < nLL; i++ {
 		line, info := otlGenLL(r, i)
 		for k, v := range info {
@@ -624,6 +647,19 @@ func areaOtl(c *Ctx) {
 				}
 			}
 			c.Stat("ll.lookups-via-extension", bucket(nExt))
+			if len(b) <= 6000 || (nExt > 0 && nLargeRead < 6) {
+				if len(b) > 6000 {
+					nLargeRead++
+				}
+				o := c.Case(Verdict, "otl.ll.read", fmt.Sprintf("ext=%d data=%s", ext, hx(b)), true)
+				c.Stat("ll.read-outcome", "encoded:"+outcomeClass(o))
+			}
+			if len(b) <= 3000 {
+				m, mw := otlMutate(r, b)
+				c.Stat("ll.mutation", mw)
+				o := c.Case(Verdict, "otl.ll.read", fmt.Sprintf("ext=%d data=%s", ext, hx(m)), true)
+				c.Stat("ll.read-outcome", "mutated:"+outcomeClass(o))
+			}
 			if len(b) <= 6000 {
 				c.Case(Direct, "otl.ll.prop", fmt.Sprintf("ll=%s ext=%d data=%s", line, ext, hx(b)), true)
 			} else {
@@ -672,6 +708,52 @@ func otlShowSeqs(l [][]glyph.ID) string {
 	return strings.Join(parts, "|")
 }
 
+func otlParseLigSets(s string) [][]gtab.Ligature {
+	if s == "" {
+		return nil
+	}
+	var out [][]gtab.Ligature
+	for _, t := range strings.Split(s, "|") {
+		set := []gtab.Ligature{}
+		if t != "-" {
+			for _, q := range strings.Split(t, ",") {
+				i := strings.IndexByte(q, '<')
+				o, _ := strconv.Atoi(q[:i])
+				lig := gtab.Ligature{Out: glyph.ID(o), In: []glyph.ID{}}
+				if q[i+1:] != "" {
+					for _, x := range strings.Split(q[i+1:], ".") {
+						v, _ := strconv.Atoi(x)
+						lig.In = append(lig.In, glyph.ID(v))
+					}
+				}
+				set = append(set, lig)
+			}
+		}
+		out = append(out, set)
+	}
+	return out
+}
+
+func otlShowLigSets(l [][]gtab.Ligature) string {
+	parts := make([]string, len(l))
+	for i, set := range l {
+		if len(set) == 0 {
+			parts[i] = "-"
+			continue
+		}
+		q := make([]string, len(set))
+		for k, lig := range set {
+			in := make([]string, len(lig.In))
+			for j, g := range lig.In {
+				in[j] = strconv.Itoa(int(g))
+			}
+			q[k] = fmt.Sprintf("%d<%s", lig.Out, strings.Join(in, "."))
+		}
+		parts[i] = strings.Join(q, ",")
+	}
+	return strings.Join(parts, "|")
+}
+
 func otlGids(l []glyph.ID) string {
 	x := make([]int, len(l))
 	for i, g := range l {
@@ -695,6 +777,8 @@ func otlGsubFromFields(f Fields) gtab.Subtable {
 		return &gtab.Gsub2_1{Cov: cov, Repl: otlParseSeqs(f["seqs"])}
 	case "31":
 		return &gtab.Gsub3_1{Cov: cov, Alternates: otlParseSeqs(f["seqs"])}
+	case "41":
+		return &gtab.Gsub4_1{Cov: cov, Repl: otlParseLigSets(f["ligs"])}
 	}
 	panic("bad st")
 }
@@ -709,6 +793,8 @@ func otlShowSubtable(st gtab.Subtable) string {
 		return fmt.Sprintf("2.1;cov=%s;seqs=%s", otlShowCov(t.Cov), otlShowSeqs(t.Repl))
 	case *gtab.Gsub3_1:
 		return fmt.Sprintf("3.1;cov=%s;seqs=%s", otlShowCov(t.Cov), otlShowSeqs(t.Alternates))
+	case *gtab.Gsub4_1:
+		return fmt.Sprintf("4.1;cov=%s;ligs=%s", otlShowCov(t.Cov), otlShowLigSets(t.Repl))
 	}
 	return fmt.Sprintf("other:%T", st)
 }
@@ -757,7 +843,7 @@ func otlGenSeq(r *Rng, long bool) []glyph.ID {
 // otlGenGsub writes the cases for one GSUB subtable.
 func otlGenGsub(c *Ctx, i int) {
 	r := c.Rng
-	st := Pick(r, []string{"11", "12", "12", "21", "21", "31"})
+	st := Pick(r, []string{"11", "12", "12", "21", "21", "31", "41", "41"})
 	var rs []otlRun
 	for {
 		rs = otlGenRuns(r, false)
@@ -769,6 +855,8 @@ func otlGenGsub(c *Ctx, i int) {
 	args := ""
 	what := "regular"
 	switch {
+	case i == 4 || i == 5:
+		st = "41"
 	case i < 4: // the coverage offset at the 16-bit boundary: 65534 is written, 65536 is refused
 		st = []string{"12", "12", "21", "31"}[i]
 		if st == "12" {
@@ -799,6 +887,45 @@ func otlGenGsub(c *Ctx, i int) {
 			subs[k] = r.Intn(65536)
 		}
 		args = fmt.Sprintf("st=12 cov=%s subs=%s", otlRunsString(rs, false), ints(subs))
+	case "41":
+		m := n
+		if what == "count-mismatch" {
+			m = max(0, n+Pick(r, []int{-2, -1, 1, 3}))
+		}
+		if i == 4 || i == 5 {
+			// coverage offset 65534 (written) / 65536 (refused): m sets of one ligature with 2 components
+			// each cost 2 (offset) + 2 + 2 + 4 + 4 = 14 bytes; 6 + 14*4680 = 65526, plus 4/5 extra components
+			m, n = 4680, 4680
+			rs = []otlRun{{0, n - 1, 0}}
+			what = "boundary"
+		}
+		sets := make([]string, m)
+		for k := range sets {
+			nl := Pick(r, []int{0, 1, 1, 2, 3})
+			if what == "boundary" {
+				nl = 1
+			}
+			q := make([]string, nl)
+			for j := range q {
+				nin := Pick(r, []int{0, 1, 1, 2, 3, 5})
+				if what == "boundary" {
+					nin = 2
+					if k == 0 {
+						nin = 2 + 4 + i%2 // 65534 for i == 4, 65536 for i == 5
+					}
+				}
+				in := make([]string, nin)
+				for x := range in {
+					in[x] = strconv.Itoa(r.Intn(65536))
+				}
+				q[j] = fmt.Sprintf("%d<%s", r.Intn(65536), strings.Join(in, "."))
+			}
+			sets[k] = strings.Join(q, ",")
+			if nl == 0 {
+				sets[k] = "-"
+			}
+		}
+		args = fmt.Sprintf("st=41 cov=%s ligs=%s", otlRunsString(rs, false), strings.Join(sets, "|"))
 	default:
 		m := n
 		if what == "count-mismatch" {
@@ -829,8 +956,8 @@ func otlGenGsub(c *Ctx, i int) {
 	f := parseFields(args)
 	b := gtab.VerifSubtableEncode(otlGsubFromFields(f))
 	c.Stat("gsub.bytes", bucket(len(b)))
-	tp := map[string]int{"11": 1, "12": 1, "21": 2, "31": 3}[st]
-	if what != "count-mismatch" && len(b) <= 30000 {
+	tp := map[string]int{"11": 1, "12": 1, "21": 2, "31": 3, "41": 4}[st]
+	if what != "count-mismatch" && len(b) <= 30000 && st != "41" {
 		c.Case(Direct, "otl.gsub.prop", args+" data="+hx(b), true)
 	}
 	if len(b) <= 30000 || what == "boundary" {
@@ -841,7 +968,7 @@ func otlGenGsub(c *Ctx, i int) {
 			m, mw := otlMutate(r, b)
 			t2 := tp
 			if r.Chance(1, 6) {
-				t2 = r.Range(1, 3)
+				t2 = r.Range(1, 4)
 			}
 			c.Stat("gsub.mutation", mw)
 			o := c.Case(Verdict, "otl.gsub.read", fmt.Sprintf("type=%d data=%s", t2, hx(m)), true)
@@ -1100,6 +1227,354 @@ func otlGenGpos(c *Ctx, i int) {
 			c.Stat("gpos.mutation", mw)
 			o := c.Case(Verdict, "otl.gpos.read", fmt.Sprintf("type=%d data=%s", t2, hx(m)), true)
 			c.Stat("gpos.read-outcome", outcomeClass(o))
+		}
+	}
+}
+
+// ---------------------------------------------------------------- feature lists
+
+func otlParseFL(s string) gtab.FeatureListInfo {
+	fl := gtab.FeatureListInfo{}
+	if s == "" {
+		return fl
+	}
+	for _, t := range strings.Split(s, "|") {
+		i := strings.IndexByte(t, ':')
+		f := &gtab.Feature{Tag: string(mustHex(t[:i]))}
+		if t[i+1:] != "-" {
+			for _, x := range strings.Split(t[i+1:], ".") {
+				v, _ := strconv.Atoi(x)
+				f.Lookups = append(f.Lookups, gtab.LookupIndex(v))
+			}
+		}
+		fl = append(fl, f)
+	}
+	return fl
+}
+
+func otlShowFL(fl gtab.FeatureListInfo) string {
+	parts := make([]string, len(fl))
+	for i, f := range fl {
+		ls := "-"
+		if len(f.Lookups) > 0 {
+			q := make([]string, len(f.Lookups))
+			for k, l := range f.Lookups {
+				q[k] = strconv.Itoa(int(l))
+			}
+			ls = strings.Join(q, ".")
+		}
+		parts[i] = hx([]byte(f.Tag)) + ":" + ls
+	}
+	return strings.Join(parts, "|")
+}
+
+func init() {
+	ops["otl.fl.encode"] = func(f Fields) string {
+		return canonPanic(guard(func() string {
+			return "ok:" + otlShowBytes(gtab.VerifEncodeFeatureList(otlParseFL(f["fl"])))
+		}))
+	}
+	ops["otl.fl.read"] = func(f Fields) string {
+		return canonPanic(guard(func() string {
+			fl, err := gtab.VerifReadFeatureList(f.Hex("data"), 0)
+			if err != nil {
+				return errKind(err)
+			}
+			return "ok:" + otlShowFL(fl)
+		}))
+	}
+}
+
+// otlGenFL writes the cases for one feature list.
+func otlGenFL(c *Ctx, i int) {
+	r := c.Rng
+	n := Pick(r, []int{0, 1, 2, 3, 5, 8, 20, 60})
+	what := "regular"
+	lk := func() int { return Pick(r, []int{0, 0, 1, 1, 2, 3, 7}) }
+	switch i {
+	case 0: // the last feature table starts at 65534 (written) ...
+		n, what = 6553, "boundary-ok" // 2 + 6n = 39320; tables 4 bytes each -> last offset 39320 + 4*6552 = 65528
+	case 1: // ... or above 0xFFFF (refused)
+		n, what = 6554, "boundary-refused"
+	case 2:
+		what = "short-tag"
+	}
+	parts := make([]string, n)
+	for k := range parts {
+		tag := Pick(r, []string{"kern", "liga", "mark", "ss01", "c2sc", string(r.Bytes(4))})
+		nl := lk()
+		if strings.HasPrefix(what, "boundary") {
+			nl = 0
+			if k == 0 {
+				nl = 3 // 65528 + 6 = 65534 for n = 6553; 65538 for n = 6554
+			}
+		}
+		if what == "short-tag" && k == n/2 {
+			tag = "ab"
+		}
+		ls := "-"
+		if nl > 0 {
+			q := make([]string, nl)
+			for j := range q {
+				q[j] = strconv.Itoa(Pick(r, []int{0, 1, 2, 65535, r.Intn(300)}))
+			}
+			ls = strings.Join(q, ".")
+		}
+		parts[k] = hx([]byte(tag)) + ":" + ls
+	}
+	c.Stat("fl.kind", what)
+	c.Stat("fl.features", bucket(n))
+	line := "fl=" + strings.Join(parts, "|")
+	out := c.Case(Verdict, "otl.fl.encode", line, n >= 2)
+	c.Stat("fl.encode-outcome", outcomeClass(out))
+	if !strings.HasPrefix(out, "ok:") {
+		return
+	}
+	b := gtab.VerifEncodeFeatureList(otlParseFL(strings.TrimPrefix(line, "fl=")))
+	c.Case(Verdict, "otl.fl.read", "data="+hx(b), n >= 2)
+	if len(b) <= 4000 {
+		for k := 0; k < 2; k++ {
+			m, mw := otlMutate(r, b)
+			c.Stat("fl.mutation", mw)
+			o := c.Case(Verdict, "otl.fl.read", "data="+hx(m), true)
+			c.Stat("fl.read-outcome", outcomeClass(o))
+		}
+	}
+}
+
+// ---------------------------------------------------------------- readLookupList
+
+func init() {
+	ops["otl.ll.read"] = func(f Fields) string {
+		return canonPanic(guard(func() string {
+			ll, err := gtab.VerifReadLookupList(f.Hex("data"), 0, uint16(f.Int("ext")))
+			if err != nil {
+				return errKind(err)
+			}
+			parts := make([]string, len(ll))
+			for i, l := range ll {
+				ps := make([]string, len(l.Subtables))
+				for j, st := range l.Subtables {
+					r, ok := st.(*gtab.VerifRef)
+					if !ok {
+						return fmt.Sprintf("unresolved:%T", st)
+					}
+					ps[j] = strconv.FormatInt(r.Pos, 10)
+				}
+				parts[i] = fmt.Sprintf("%d/%d/%d/%s", l.Meta.LookupType, l.Meta.LookupFlags, l.Meta.MarkFilteringSet, strings.Join(ps, "|"))
+			}
+			return "ok:" + strings.Join(parts, ";")
+		}))
+	}
+}
+
+// otlSynthLL builds a small lookup list by hand, with extension lookups whose records point to
+// nearby positions (real extension records only arise above 64 KiB).
+func otlSynthLL(r *Rng, ext int) []byte {
+	w := func(b []byte, v int) []byte { return append(b, byte(v>>8), byte(v)) }
+	n := r.Range(0, 5)
+	type lk struct{ hdr, body []byte }
+	var lks []lk
+	for i := 0; i < n; i++ {
+		isExt := r.Chance(1, 2)
+		tp := Pick(r, []int{1, 2, 4, 5, 6, 8})
+		if isExt {
+			tp = ext
+		}
+		flags := Pick(r, []int{0, 1, 16, 0x10 | 0x0200})
+		ns := r.Range(0, 4)
+		hdrLen := 6 + 2*ns
+		if flags&16 != 0 {
+			hdrLen += 2
+		}
+		var hdr, body []byte
+		hdr = w(hdr, tp)
+		hdr = w(hdr, flags)
+		hdr = w(hdr, ns)
+		et := Pick(r, []int{1, 2, 4})
+		for j := 0; j < ns; j++ {
+			hdr = w(hdr, hdrLen+len(body))
+			if isExt {
+				e := et
+				if r.Chance(1, 12) {
+					e = Pick(r, []int{ext, 3}) // inconsistent / self-referring extension type
+				}
+				body = w(body, Pick(r, []int{1, 1, 1, 1, 1, 2}))
+				body = w(body, e)
+				off := r.Intn(40)
+				body = w(body, Pick(r, []int{0, 0, 0, 1}))
+				body = w(body, off)
+			} else {
+				body = append(body, r.Bytes(r.Range(0, 6))...)
+			}
+		}
+		if flags&16 != 0 {
+			hdr = w(hdr, r.Intn(5))
+		}
+		lks = append(lks, lk{hdr, body})
+	}
+	var out []byte
+	out = w(out, n)
+	pos := 2 + 2*n
+	for _, l := range lks {
+		out = w(out, pos)
+		pos += len(l.hdr) + len(l.body)
+	}
+	for _, l := range lks {
+		out = append(out, l.hdr...)
+		out = append(out, l.body...)
+	}
+	return out
+}
+
+// ---------------------------------------------------------------- GDEF
+
+func otlClassField(s string) classdef.Table {
+	switch s {
+	case "-":
+		return nil
+	case "empty":
+		return classdef.Table{}
+	}
+	return otlClassFromRuns(otlParseRuns(s, true))
+}
+
+func otlGdefFromFields(f Fields) *gdef.Table {
+	t := &gdef.Table{GlyphClass: otlClassField(f["gc"]), MarkAttachClass: otlClassField(f["mac"])}
+	switch f["sets"] {
+	case "-":
+	case "none":
+		t.MarkGlyphSets = []coverage.Set{}
+	default:
+		for _, q := range strings.Split(f["sets"], ";") {
+			set := coverage.Set{}
+			if q != "e" {
+				for _, r := range otlParseRuns(q, false) {
+					for g := r.a; g <= r.b; g++ {
+						set[glyph.ID(g)] = true
+					}
+				}
+			}
+			t.MarkGlyphSets = append(t.MarkGlyphSets, set)
+		}
+	}
+	return t
+}
+
+func init() {
+	ops["otl.gdef.encode"] = func(f Fields) string {
+		return canonPanic(guard(func() string { return "ok:" + otlShowBytes(otlGdefFromFields(f).Encode()) }))
+	}
+	ops["otl.gdef.read"] = func(f Fields) string {
+		return canonPanic(guard(func() string {
+			t, err := gdef.Read(bytes.NewReader(f.Hex("data")))
+			if err != nil {
+				return errKind(err)
+			}
+			cls := func(c classdef.Table) string {
+				if c == nil {
+					return "-"
+				}
+				return otlShowClass(c)
+			}
+			sets := "-"
+			if t.MarkGlyphSets != nil {
+				sets = ""
+				for _, set := range t.MarkGlyphSets {
+					sets += "{" + otlGids(set.Glyphs()) + "}"
+				}
+			}
+			return fmt.Sprintf("ok:gc=%s;mac=%s;sets=%s", cls(t.GlyphClass), cls(t.MarkAttachClass), sets)
+		}))
+	}
+}
+
+// otlGenGdef writes the cases for one GDEF table.
+func otlGenGdef(c *Ctx, i int) {
+	r := c.Rng
+	small := func(classes bool) []otlRun {
+		for {
+			rs := otlGenRuns(r, classes)
+			if len(rs) <= 120 {
+				if classes {
+					for k := range rs {
+						if rs[k].c > 4 {
+							rs[k].c = 1 + rs[k].c%4
+						}
+					}
+				}
+				return rs
+			}
+		}
+	}
+	cls := func() string {
+		switch r.Intn(6) {
+		case 0:
+			return "-"
+		case 1:
+			return "empty"
+		}
+		rs := small(true)
+		if len(rs) == 0 {
+			return "empty"
+		}
+		return otlRunsString(rs, true)
+	}
+	gc, mac := cls(), cls()
+	sets := "-"
+	switch r.Intn(5) {
+	case 0:
+	case 1:
+		sets = "none"
+	default:
+		n := r.Range(1, 5)
+		q := make([]string, n)
+		for k := range q {
+			rs := small(false)
+			// glyph sets need maximal runs: merge is not needed, runs are disjoint and increasing
+			q[k] = otlRunsString(rs, false)
+			if q[k] == "" {
+				q[k] = "e"
+			}
+		}
+		sets = strings.Join(q, ";")
+	}
+	what := "regular"
+	switch i {
+	case 0, 1: // the mark attachment class table starts at 65534 (written) / 65536 (refused):
+		// glyph class table in format 1 over n glyphs with alternating classes: 6 + 2n bytes after the 12-byte header
+		n := 32758 + i // 12 + 6 + 2n = 65534 / 65536
+		var rs []otlRun
+		for g := 0; g < n; g++ {
+			rs = append(rs, otlRun{g, g, 1 + g%2})
+		}
+		gc, mac, sets = otlRunsString(rs, true), "5:1", "-"
+		what = []string{"boundary-ok", "boundary-refused"}[i]
+	}
+	c.Stat("gdef.kind", what)
+	c.Stat("gdef.parts", fmt.Sprintf("gc:%v mac:%v sets:%v", gc != "-", mac != "-", sets != "-"))
+	args := fmt.Sprintf("gc=%s mac=%s sets=%s", gc, mac, sets)
+	out := c.Case(Verdict, "otl.gdef.encode", args, true)
+	c.Stat("gdef.encode-outcome", outcomeClass(out))
+	if !strings.HasPrefix(out, "ok:") {
+		return
+	}
+	b := otlGdefFromFields(parseFields(args)).Encode()
+	if len(b) <= 30000 || what != "regular" {
+		c.Case(Verdict, "otl.gdef.read", "data="+hx(b), true)
+	}
+	if len(b) <= 6000 {
+		for k := 0; k < 3; k++ {
+			m, mw := otlMutate(r, b)
+			if r.Chance(1, 3) && len(m) >= 14 {
+				// damage the header: version or one of the offsets
+				j := Pick(r, []int{2, 4, 10, 12})
+				m[j], m[j+1] = byte(r.Intn(2)), byte(r.Intn(40))
+				mw = "header"
+			}
+			c.Stat("gdef.mutation", mw)
+			o := c.Case(Verdict, "otl.gdef.read", "data="+hx(m), true)
+			c.Stat("gdef.read-outcome", outcomeClass(o))
 		}
 	}
 }
